@@ -318,15 +318,13 @@ def gp_scenarios(an, model, gp):
     return out
 
 
-def check(ctx):
+def check_secret_encrypted_now(ctx):
+    """C03.1 (shared with C02: an encrypted value re-loads with the configuration's key file only if what is written was
+    produced by `cfg._keyfile`'s `encrypt` in this very call): every path of `SecureField.to_basic` that returns a record for a
+    non-empty secret passes the plaintext through `KeyFile.encrypt` and returns the record built from that result -- not one
+    remembered on the field object (shared by every configuration of the schema, whatever its key file) or from an earlier save."""
     an, model = ctx.an, ctx.model
-    from .c02 import check_container_items_encoded
-    check_container_items_encoded(ctx)      # secrets / digests held as items of typed lists and dicts
-    KeyFile = model.cls("KeyFile")
-    Config = model.cls("Config")
     encrypt = model.method("KeyFile", "encrypt")
-
-    # ---------------------------------------------------------------- C03.1
     tb = model.method("SecureField", "to_basic")
     vparam = tb.positional_params[2]
     is_encrypt = lambda tg: bool(tg) and all(t.kind == "fn" and t.fn is encrypt for t in tg)
@@ -360,6 +358,19 @@ def check(ctx):
                "SecureField.to_basic can return %s for a non-empty secret: a record that was not produced by encrypting now (remembered "
                "from a load or an earlier save) -- after the key file in force changes, the file is written with stale ciphertext and no "
                "longer loads" % (ast.unparse(r.ast.value)[:50] if r.ast.value is not None else "None"), node=r)
+    return tb, vparam, is_encrypt, rets
+
+
+def check(ctx):
+    an, model = ctx.an, ctx.model
+    from .c02 import check_container_items_encoded
+    check_container_items_encoded(ctx)      # secrets / digests held as items of typed lists and dicts
+    KeyFile = model.cls("KeyFile")
+    Config = model.cls("Config")
+    encrypt = model.method("KeyFile", "encrypt")
+
+    # ---------------------------------------------------------------- C03.1
+    tb, vparam, is_encrypt, rets = check_secret_encrypted_now(ctx)
     # non-empty secrets are encrypted: a dict return must carry the ciphertext of the encrypt result
     for r in rets:
         v = r.ast.value
